@@ -93,6 +93,17 @@ CHECKS = {
              'section declared shorter than its content.',
         note='Trusted: mc.ref.message (layout from FM-94). Deviation bound 1 (quick) / 2 (thorough) on simultaneous '
              'non-default declared lengths / surplus sections; data lengths beyond 32 bits repeat residues mod 16.'),
+    'C09': dict(
+        level='model_checking', design='DESIGN.md §4 C09',
+        technique='exhaustive enumeration of ALL strings of length 2 (thorough 3) over a 12-character alphabet of '
+                  'quotes/escapes/markers in 5 template positions, E1 choice-tree exploration of the template grammar with '
+                  'value deviations, the C07 bitmap structures, the whole corpus, and the command line; every message is '
+                  'rendered 4 ways, converted back 3 ways and encoded 5 ways',
+        text='For every message of the space the three conversions must reproduce the flat JSON exactly, all encodings '
+             'must give identical bytes, and the nested JSON must hold every decoded value exactly once in an arrangement '
+             'from which the documented traversal recovers the flat order (judged by the reference traversal).',
+        note='Trusted: mc.ref.nested. The flat JSON is the comparison base (its content is C01). Messages that cannot be '
+             're-encoded because their table version is not bundled are skipped (counted).'),
     'C10': dict(
         level='model_checking', design='DESIGN.md §4 C10',
         technique='exhaustive enumeration: every generated message (template x 1..3(4) subsets with pairwise different '
